@@ -27,7 +27,6 @@ import (
 	"sort"
 	"strings"
 	"sync"
-	"time"
 
 	"golang.org/x/oauth2"
 
@@ -223,13 +222,8 @@ func wireOps() []wireOp {
 			_, err := rp.DeviceAuthorization(bg, []string{"openid", "sc-" + mk}, i.rp, nil)
 			return err
 		}},
-		{"devicepoll", "", func(i *wireInst, mk string) error {
-			ctx, cancel := context.WithTimeout(bg, 20*time.Second)
-			defer cancel()
-			// the helper gives every poll a time-out equal to the interval: not too short, or a loaded machine makes it poll twice
-			_, err := rp.DeviceAccessToken(ctx, "dc-"+mk, 10*time.Millisecond, i.rp)
-			return err
-		}},
+		// rp.DeviceAccessToken is not in the catalogue: the helper gives every poll a time-out equal to the poll interval, so
+		// whether and how often it reaches the wire depends on the load of the machine - not a property of the library
 		{"code", "", func(i *wireInst, mk string) error {
 			_, err := rp.CodeExchange[*oidc.IDTokenClaims](bg, "code-"+mk, i.rp, rp.WithCodeVerifier("verifier-"+mk))
 			return err
